@@ -85,7 +85,18 @@ pub fn recipe_strategy(reg: Reg) -> impl Strategy<Value = Recipe> {
         1 => any::<bool>().prop_map(|same_addr| Recipe::Foreign { same_addr }),
         1 => (any::<bool>(), 0u8..6).prop_map(|(authentic, excess)| Recipe::Oversize { authentic, excess }),
         1 => join_accept_strategy(reg, false),
-        2 => proptest::collection::vec(any::<u8>(), 0..64).prop_map(Recipe::Random),
+        2 => crate::gen::random_bytes_strategy().prop_map(Recipe::Random),
+    ]
+}
+
+/// arbitrary bytes heard on the air: the special lengths are drawn deliberately (an empty reception, a
+/// lone octet, the shortest parseable frames, lengths around the frame limits), the rest uniformly
+pub fn random_bytes_strategy() -> impl Strategy<Value = Vec<u8>> {
+    prop_oneof![
+        2 => Just(vec![]),
+        2 => proptest::collection::vec(any::<u8>(), 1..=12),
+        5 => proptest::collection::vec(any::<u8>(), 0..64),
+        1 => proptest::collection::vec(any::<u8>(), 64..=255),
     ]
 }
 
